@@ -235,6 +235,13 @@ func (e *Env) ident(name string) Value {
 				}
 			}
 		}
+		// a local that lives on the heap: its current struct value
+		if hl, ok := fr.heapLocals[name]; ok {
+			if pt, ok := hl.Typ.Underlying().(*types.Pointer); ok {
+				v, ft := x.loadField(e.st, e.heap, e.epoch, hl.T, pt.Elem(), nil)
+				return Value{T: v, Typ: ft}
+			}
+		}
 		// free variables of a closure
 		for i, fv := range fr.fn.FreeVars {
 			if fv.Name() == name && i < len(fr.bind) {
